@@ -207,3 +207,31 @@ add('B13', [('SRC/dgstrs.c', "    Lstore = L->Store;\n    Lval = Lstore->nzval;\
     note='reorder independent local assignments in dgstrs only')
 add('B4b', [('SRC/dgsrfs.c', "    notran = (trans == NOTRANS);\n    if ( !notran", "    notran = (trans == NOTRANS);\n    int nrowA = A->nrow;\n    if ( !notran"),
             ('SRC/dgsrfs.c', "    else if ( A->nrow != A->ncol || A->nrow < 0 ||", "    else if ( nrowA != A->ncol || nrowA < 0 ||")], [], ALL, note='hoist A->nrow into a fresh local in dgsrfs only')
+
+# ---------------------------------------------------------------- benign edits aimed at the rules of DESIGN 12.9 / 12.10
+add('B14', [('SRC/dgssvx.c', "		if ( X->ncol < 0 ||\n		     (B->ncol != 0 && B->ncol != X->ncol) ) *info = -14;",
+             "		if ( (B->ncol != 0 && X->ncol != B->ncol) || X->ncol < 0 ) *info = -14;"),
+            ('SRC/sgssvx.c', "		if ( X->ncol < 0 ||\n		     (B->ncol != 0 && B->ncol != X->ncol) ) *info = -14;",
+             "		if ( (B->ncol != 0 && X->ncol != B->ncol) || X->ncol < 0 ) *info = -14;")], [], ['C18'],
+    note='reorder the disjuncts / operands of the X test of d,s gssvx')
+add('B15', x4('SRC/?memory.c', "	    if ( nzlumax < annz || nzlumax == 0 ) { /* cannot shrink any further */", "	    if ( nzlumax == 0 || nzlumax < annz ) {"), [], ['C08', 'C07', 'C19'],
+    note='reorder the give-up test of the ?LUMemInit retry loop')
+add('B16', [('SRC/relax_snode.c', "	while ( j < n && descendants[j] != 0 ) j++;", "	while ( j < n && descendants[j] ) j++;")], [], ['C19', 'C02', 'C06'],
+    note='drop the explicit != 0 in the leaf search (twin differs textually only)')
+add('B17', [('SRC/mc64ad.c', "	    posk = pos << 1;\n	    if (posk > *qlen) {\n		goto L20;\n	    }\n	    dk = d__[q[posk]];\n	    if (posk < *qlen) {\n		dr = d__[q[posk + 1]];\n		if (dk < dr) {",
+             "	    posk = pos * 2;\n	    if (*qlen < posk) {\n		goto L20;\n	    }\n	    dk = d__[q[posk]];\n	    if (*qlen > posk) {\n		dr = d__[q[posk + 1]];\n		if (dr > dk) {"),
+            ('SRC/mc64ad.c', "	    posk = pos << 1;\n	    if (posk > *qlen) {\n		goto L20;\n	    }\n	    dk = d__[q[posk]];\n	    if (posk < *qlen) {\n		dr = d__[q[posk + 1]];\n		if (dk > dr) {",
+             "	    posk = pos * 2;\n	    if (*qlen < posk) {\n		goto L20;\n	    }\n	    dk = d__[q[posk]];\n	    if (*qlen > posk) {\n		dr = d__[q[posk + 1]];\n		if (dr < dk) {")], [], ['C17'],
+    note='mc64ed_: same sift-down tests with swapped operands, 2*pos for pos << 1, in both branches')
+add('B18', [('SRC/qselect.c', "	    if (A[i] < val) { A[p] = A[i]; p = i; }\n	    for (; A[j] <= val && j > p; j--);\n	    if (A[j] > val) { A[p] = A[j]; p = j; }\n	}\n	A[p] = val;\n	if (p == k) return val;\n	else if (p > k) n = p;\n	else\n	{\n	    p++;\n	    n -= p; A += p; k -= p;\n	}\n    }\n\n    return A[0];\n}\n\nfloat",
+             "	    if (!(A[i] >= val)) { A[p] = A[i]; p = i; }\n	    for (; A[j] <= val && j > p; j--);\n	    if (val < A[j]) { A[p] = A[j]; p = j; }\n	}\n	A[p] = val;\n	if (p == k) return val;\n	else if (p > k) n = p;\n	else\n	{\n	    p++;\n	    n -= p; A += p; k -= p;\n	}\n    }\n\n    return A[0];\n}\n\nfloat")], [], ['C15'],
+    note='dqselect: the move tests written as a negation / with swapped operands')
+add('B19', x4('SRC/ilu_?copy_to_ucol.c', "		ucol[i] = ucol[m0];\n		usub[i] = usub[m0];\n		m0--;\n		m--;", "		usub[i] = usub[m0];\n		ucol[i] = ucol[m0];\n		m--;\n		m0--;"), [], ['C03', 'C15'],
+    note='swap the two independent copies and the two independent decrements of the secondary dropping')
+add('B20', [('SRC/dgsrfs.c', "(safe1 + fabs(work[i])) / (rwork[i] + safe1)", "(fabs(work[i]) + safe1) / (safe1 + rwork[i])")], [], ['C13'], note='commute the addends of the guarded BERR ratio (d only)')
+add('B21', x4('SRC/?readMM.c', 'sscanf(line,"%63s",banner);', 'sscanf(line,"%60s",banner);'), [], ['C16'], note='a narrower field width')
+add('B22', x4('SRC/?memory.c', "		return (SUPERLU_MAX(1, ?memory_usage(nzlmax, nzumax, nzlumax, n)) + n); /* > n also when n = 0 */\n	    }\n	}",
+              "		return (?memory_usage(nzlmax, nzumax, nzlumax, n) + n + 1);\n	    }\n	}"), [], ['C08'], note='another way to make the failure status exceed n')
+add('B23', [('SRC/mc64ad.c', "	    dw[(*n << 1) + j] = fact;\n	    if (fact != 0.) {\n		fact = log(fact);", "	    dw[(*n << 1) + j] = fact;\n	    if (fact > 0.) {\n		fact = log(fact);")], [], ['C17'],
+    note='job 5: positivity test instead of != 0 on the (linear) column maximum')
+add('B24', x4('SRC/?gstrf.c', "    descendants = (int *) int32Malloc(n + 1);", "    descendants = (int *) int32Calloc(n + 2);"), [], ['C19', 'C02'], note='scratch array allocated zeroed and one longer')
